@@ -61,7 +61,8 @@ def calcLen (fd : FileDirective) (cond : Int) (rs : List FileStoreResponseTlv)
   fd.setParamLen (base + flLen + responsesLen rs)
 
 /-- `FinishedPdu(pdu_conf, params)`: the `fault_location` setter runs when a fault location is
-    given, then the `file_store_responses` setter (both see the complete parameter object) -/
+    given, then the `file_store_responses` setter (both see the complete parameter object), then
+    `_calculate_directive_field_len()` once more, unconditionally -/
 def Finished.new (conf : PduConfig) (cond : Int) (delivery status : Nat)
     (rs : List FileStoreResponseTlv) (fl : Option EntityIdTlv) : Py Finished := do
   let fd ← FileDirective.new { conf with direction := 1 } DIR_FINISHED 1
@@ -69,11 +70,14 @@ def Finished.new (conf : PduConfig) (cond : Int) (delivery status : Nat)
     | some _ => calcLen fd cond rs fl
     | none => pure fd
   let fd ← calcLen fd cond rs fl
+  let fd ← calcLen fd cond rs fl
   pure ⟨fd, cond, delivery, status, rs, fl⟩
 
 def Finished.packetLen (k : Finished) : Nat := k.fd.packetLen
 
-/-- the `condition_code` setter -/
+/-- the `condition_code` setter. (All three setters restore the old value and re-raise when the
+    new length is refused: in this functional model a refused setter returns the error and the
+    object it was applied to is, by construction, unchanged.) -/
 def Finished.setCond (k : Finished) (c : Int) : Py Finished := do
   let fd ← calcLen k.fd c k.responses k.faultLoc
   pure { k with fd := fd, cond := c }
